@@ -1334,7 +1334,9 @@ func tierCfgs(tier string) []chainCfg {
 		return []chainCfg{
 			{L: 16, rot: 0, layout: 0, sizes: []int{8}, gmp: 2, maxPos: 3},
 			{L: 21, rot: 5, layout: 1, sizes: []int{16}, gmp: 2, maxPos: 2},
-			{L: 16, rot: 0, layout: 0, sizes: []int{16}, gmp: 2, maxPos: 2},
+			// layout 2: the second byte of every queried bit vector is zero ([x,0]: the shape whose sparse
+			// encoding is exactly as long as the raw vector)
+			{L: 16, rot: 0, layout: 2, sizes: []int{16}, gmp: 2, maxPos: 2},
 		}
 	}
 	return []chainCfg{
